@@ -404,11 +404,19 @@ theorem float32_unchecked_panics :
     float32Float [0x31, 0x65, 0x33, 0x39] = .error :=
   Martian.LexerActions.float32_unchecked_panics
 
-/-- Recorded (not a totality defect; the action accepts and mis-stores):
-`MapDim: 1 + $4` in `type_id` has no guard, 32767 inner array dimensions of a
-map type wrap it to −32768. -/
-theorem map_dim_wraps : mapDim 32767 = -32768 ∧ (∀ n : Int, 0 ≤ n → n < 32767 → mapDim n = n + 1) :=
-  mapDim_wraps
+/-- The map dimension of `type_id` (`1 +` the inner array dimension, an int16):
+since the repair 96a192c it is exact and below 2^15 for every count the
+`arr_list` counter can deliver, or a located error. -/
+theorem map_dim_total (n : Int) (h0 : 0 ≤ n) (h1 : n ≤ 32767) :
+    (mapDim n = .ok (n + 1) ∧ n + 1 < 2 ^ 15) ∨ (mapDim n = .error ∧ n = 32767) :=
+  mapDim_total n h0 h1
+
+/-- Negative witness about the UNGUARDED action (the code before the repair;
+the harness replays it and checks that the real code no longer behaves so):
+32767 inner array dimensions of a map type wrapped the dimension to −32768. -/
+theorem map_dim_wraps : mapDimUnguarded 32767 = -32768 ∧
+    (∀ n : Int, 0 ≤ n → n < 32767 → mapDimUnguarded n = n + 1) :=
+  mapDimUnguarded_wraps
 
 end actions
 
